@@ -80,8 +80,9 @@ def __scientific_printer(value: float, error: float, latex=False) -> str:
     converted_value = rounded_value / (10 ** order)
     converted_error = rounded_error / (10 ** order)
 
-    # Check if the number of decimals matches the requirement of significant figures
-    decimals = __find_number_of_decimals(converted_value, converted_error)
+    # Check if the number of decimals matches the requirement of significant figures (counted
+    # on the rounded pair and shifted by the order, the division above is not exact in floats)
+    decimals = __find_number_of_decimals(rounded_value, rounded_error, order)
 
     # Construct the string to return
     value_string = "{:.{num}f}".format(converted_value, num=decimals)
@@ -140,7 +141,7 @@ def __round_values_to_sig_figs(value: float, error: float) -> (float, float):
     return rounded_value, rounded_error
 
 
-def __find_number_of_decimals(value: float, error: float) -> int:
+def __find_number_of_decimals(value: float, error: float, shift: int = 0) -> int:
     """Finds the correct number of decimal places to show for a value-error pair
 
     This method checks the settings for significant figures and tweaks the already rounded
@@ -170,5 +171,5 @@ def __find_number_of_decimals(value: float, error: float) -> int:
     else:
         order = m.floor(m.log10(abs(value))) if is_valid(value) else m.floor(m.log10(abs(error)))
 
-    number_of_decimals = - order + sig_fig_value - 1
+    number_of_decimals = - order + sig_fig_value - 1 + shift
     return number_of_decimals if number_of_decimals > 0 else 0
